@@ -37,6 +37,31 @@ fn run(ctx: &Ctx) {
     ctx.run_enum("curve_types", curve_types, true, "all 256 curve-type bytes (named and explicit bodies) and all 65536 named groups", cases);
     ctx.run_tape("signed", signed, ctx.pick(90_000, 300_000), 128);
     ctx.run_tape("content_and_signature", content_and_signature, ctx.pick(120_000, 400_000), 300);
+    // the algorithm pair of DigitallySigned through its own (derived) parsers: hash octet first, then signature octet (RFC 5246
+    // 7.4.1.4.1), for all 65536 pairs, and the same pair read by parse_digitally_signed
+    ctx.run_fn("algorithm_pair", true, "all 65536 (hash, signature) octet pairs through SignatureAndHashAlgorithm::parse, HashAlgorithm::parse + SignAlgorithm::parse, SignatureScheme::parse and parse_digitally_signed", |obs| {
+        use nom_derive::Parse;
+        for v in 0..=65535u32 {
+            let (h, sg) = ((v >> 8) as u8, v as u8);
+            let b = [h, sg, 0x00, 0x01, 0xaa, 0x55];
+            obs.evals_add(4);
+            let got = guard("SignatureAndHashAlgorithm::parse", || SignatureAndHashAlgorithm::parse(&b).map(|(rem, a)| (rem.len(), a.hash.0, a.sign.0)).map_err(|e| format!("{:?}", e.map(|x| x.code))))?;
+            ensure!(got == Ok((4, h, sg)), "C13:algorithm-pair:derived-parser", "SignatureAndHashAlgorithm::parse({:02x} {:02x} ..) gives {:?}; the wire has hash {} then signature {}", h, sg, got, h, sg);
+            let got = guard("HashAlgorithm::parse, SignAlgorithm::parse", || {
+                let (r, a) = HashAlgorithm::parse(&b).map_err(|e| format!("{:?}", e.map(|x| x.code)))?;
+                let (r, c) = SignAlgorithm::parse(r).map_err(|e| format!("{:?}", e.map(|x| x.code)))?;
+                Ok::<_, String>((r.len(), a.0, c.0))
+            })?;
+            ensure!(got == Ok((4, h, sg)), "C13:algorithm-pair:octet-parsers", "HashAlgorithm::parse then SignAlgorithm::parse on {:02x} {:02x} give {:?}", h, sg, got);
+            let got = guard("SignatureScheme::parse", || SignatureScheme::parse(&b).map(|(rem, a)| (rem.len(), a.0)).map_err(|e| format!("{:?}", e.map(|x| x.code))))?;
+            ensure!(got == Ok((4, v as u16)), "C13:algorithm-pair:scheme", "SignatureScheme::parse({:02x} {:02x} ..) gives {:?}", h, sg, got);
+            let got = guard("parse_digitally_signed", || parse_digitally_signed(&b).map(|(rem, d)| (rem.len(), d.alg.map(|a| (a.hash.0, a.sign.0)), d.data.to_vec())).map_err(|e| format!("{:?}", e.map(|x| x.code))))?;
+            ensure!(got == Ok((1, Some((h, sg)), vec![0xaa])), "C13:algorithm-pair:digitally-signed", "parse_digitally_signed({:02x} {:02x} 00 01 aa 55) gives {:?}", h, sg, got);
+            obs.nontrivial(v as u64);
+        }
+        obs.sample(json!({"pairs": 65536, "example": "04 03 -> hash 4 (sha256), signature 3 (ecdsa)"}));
+        Ok(())
+    });
 }
 
 fn tail(t: &mut Tape) -> Vec<u8> {
